@@ -15,6 +15,24 @@ CHECKS = {
          "and the reference grammars (validated against ipaddress each run). Unicode-only \\d members assumed away as the property allows.",
          "DESIGN.md §2 C18"),
 }
+_E2NOTE = ("Trusts z3, CPython's re parser as the reader of the emitted text, the rexsat encodings (differentially validated against re), "
+           "and the written-out specification in the property module (its plain-Python twin is cross-checked against the z3 form each run). "
+           "Unicode-only members of \\d \\s \\w are assumed away as the property allows. Parameters (ranges, bases, formats) are an enumerated family; "
+           "texts are decided by the solver for every text up to the stated length.")
+CHECKS.update({
+ "C15": ("bounded SMT (z3) over a symbolic text: exact encoding of re's backtracking finditer for each real Integer pattern vs a numeric specification",
+         "For every enumerated (start,end,variant) the pattern emitted by the real generator is encoded with CPython's priority semantics and z3 shows that no text "
+         "up to the bound has a finditer result different from the numeric specification (value as linear term over digit variables, leading zeros, sign rules); "
+         "extensible forms via the relational encoding of fullmatch. Bounded in text length and in the enumerated ranges.", _E2NOTE, "DESIGN.md §2 C15"),
+ "C16": ("bounded SMT (z3) over a symbolic text: relational encoding of re matching for each real Decimal pattern vs a numeric/fraction-length specification",
+         "For every enumerated parameter tuple and variant: no text up to the bound on which the real pattern and the specification disagree "
+         "(whole text, embedded spans, extensible forms).", _E2NOTE, "DESIGN.md §2 C16"),
+ "C17": ("bounded SMT (z3) over a symbolic text: relational encoding of re matching for real Numeral/Word/affix patterns vs alphabet/length/affix specification",
+         "All bases 2..16 and enumerated length bounds / affix lists; every text up to the bound and every span decided by the solver.", _E2NOTE, "DESIGN.md §2 C17"),
+ "C19": ("bounded SMT (z3) over a symbolic text: relational encoding of re matching for real Date patterns vs reference regexes from the documented table",
+         "Each of the 48 formats, formats=None and seeded subsets: equivalence with the documented table for every text; Date languages are finite so the bound "
+         "(pattern width + 2) makes the fullmatch verdict complete for all lengths.", _E2NOTE, "DESIGN.md §2 C19"),
+})
 NOT_YET = "check not built yet in this round (work in progress; see DESIGN.md for the planned engine)"
 
 m = {
